@@ -164,9 +164,9 @@ class _Run:
         orig = e.orig if isinstance(e, exc.StatementError) and not isinstance(e, exc.DBAPIError) else e
         if type(orig) is exc.InvalidRequestError and "This connection is closed" in str(orig):
             # documented outcome of _checkout when both reconnect attempts were refused by checkout listeners
-            n = sum(1 for _, site, _, kind in self.new_faults() if site == "ev_checkout" and kind.startswith("disconnect"))
+            n = sum(1 for _, site, _, kind in self.new_faults() if (site == "ev_checkout" and kind.startswith("disconnect")) or (site == "ping" and kind == "disconnect"))
             if n < 2:
-                raise Violation("C26/recovery/gave-up-without-two-refusals", f"{where}: 'This connection is closed' after only {n} checkout-listener disconnects; trace={self.trace}")
+                raise Violation("C26/recovery/gave-up-without-two-refusals", f"{where}: 'This connection is closed' after only {n} failed pings / checkout-listener disconnects; trace={self.trace}")
             self.cls.add("err:reconnect-attempts-exhausted")
             return "InvalidRequestError"
         label = F.classify_error("C26", e, f"{where}; trace={self.trace}", allow=self.allowed())
